@@ -32,7 +32,10 @@ func NewRegexpMatcher(include, exclude []*regexp.Regexp) (*RegexpMatcher, error)
 			if i > 0 {
 				regex.WriteString("|")
 			}
+			// Group each rule so that its flags and alternations stay local to it.
+			regex.WriteString("(?:")
 			regex.WriteString(rules[i].String())
+			regex.WriteString(")")
 		}
 		if s := regex.String(); s != "" {
 			return regexp.MustCompile(s)
